@@ -76,7 +76,25 @@ def tables():
 
     get_attrname = _fn(util, "get_attrname")
 
+    # the substitution used for inlining (declared and analysed IRs alike): one dictionary lookup per name
+    from rattr.results import _simplify_utils as su
+
+    def _stmts(fn):
+        body = fn.body
+        if body and isinstance(body[0], ast.Expr) and isinstance(body[0].value, ast.Constant) and isinstance(body[0].value.value, str):
+            body = body[1:]                       # docstring
+        return [" ".join(ast.unparse(st).split()) for st in body]
+
+    unbind_ir = _fn(su, "unbind_ir_with_call_swaps")
+    shape = ["<not a single returned dict display>"]
+    if len(unbind_ir.body) == 1 and isinstance(unbind_ir.body[0], ast.Return) and isinstance(unbind_ir.body[0].value, ast.Dict):
+        d = unbind_ir.body[0].value
+        shape = [(k.value if isinstance(k, ast.Constant) else "**") + " = " + ast.unparse(v) for k, v in zip(d.keys, d.values)]
+
     return [
+        f"def unbindIrShape : List String := {llist(shape)}",
+        f"def unbindIrParams : List String := {llist([a.arg for a in unbind_ir.args.args])}",
+        f"def unbindNameBody : List String := {llist(_stmts(_fn(su, 'unbind_name')))}",
         f"def reRattrName : String := {lstr(util.re_rattr_name.pattern)}",
         f"def reRattrNameFlags : Nat := {int(util.re_rattr_name.flags)}",
         f"def isNamePrefixes : List String := {llist(prefixes)}",
